@@ -1,6 +1,8 @@
 package core
 
 import (
+	"sort"
+	"fmt"
 	"go/token"
 	"go/types"
 	"math"
@@ -76,6 +78,11 @@ func (s *astate) rangeOf(b BitVec, signed bool) (srange, bool) {
 				}
 			}
 		}
+		// a source about which the path knows nothing directly may differ by a constant from one it
+		// has bounded: x = y - k with y ∈ [lo,hi] and [lo-k,hi-k] representable
+		if r, ok := s.siblingRange(src, len(b), signed); ok {
+			return r, true
+		}
 		w := srcWidths[src]
 		if !signed && w > 0 && w < 63 {
 			return srange{0, int64(1)<<uint(w) - 1}, true
@@ -123,14 +130,14 @@ func (s *astate) narrow(b BitVec, signed bool, lo, hi int64) {
 		return
 	}
 	if d, has := opaqueDefs[src]; has {
-		// x+c / x-c can be undone only when the operation cannot have wrapped at the operand width
+		// y = x+c ∈ [lo,hi] gives x ∈ [lo-c,hi-c] exactly when that interval is representable at the
+		// operand width (then no reduction mod 2^w separates x from y-c); an unbounded end says nothing
 		noWrap := func(x BitVec, c int64) bool {
-			r, ok := s.rangeOf(x, signed)
-			if !ok {
+			if lo == math.MinInt64 || hi == math.MaxInt64 {
 				return false
 			}
-			lo2, ok1 := addOK(r.lo, c)
-			hi2, ok2 := addOK(r.hi, c)
+			lo2, ok1 := addOK(lo, -c)
+			hi2, ok2 := addOK(hi, -c)
 			return ok1 && ok2 && fitsWidth(lo2, hi2, len(x), signed)
 		}
 		if k, isK := constOfBits(d.r); isK {
@@ -714,4 +721,144 @@ func fitsWidth(lo, hi int64, w int, signed bool) bool {
 		return lo >= -(int64(1)<<uint(w-1)) && hi <= int64(1)<<uint(w-1)-1
 	}
 	return lo >= 0 && hi <= int64(1)<<uint(w)-1
+}
+
+// affineKeyOf: the non-constant part of the affine normal form of a named source (as a string)
+// and its constant; cached.
+type affKey struct {
+	key string
+	c   int64
+	ok  bool
+}
+
+var affKeys = map[string]affKey{}
+
+func affineKeyOf(name string, w int) affKey {
+	ck := fmt.Sprintf("%s/%d", name, w)
+	if k, has := affKeys[ck]; has {
+		return k
+	}
+	c, ts, ok := affineOf(srcBitsNoReg(name, w), 0)
+	k := affKey{ok: ok, c: c}
+	if ok {
+		m := map[string]int64{}
+		var names []string
+		for _, t := range ts {
+			if _, seen := m[t.name]; !seen {
+				names = append(names, t.name)
+			}
+			m[t.name] += t.coef
+		}
+		sort.Strings(names)
+		var parts []string
+		for _, n := range names {
+			if m[n] != 0 {
+				parts = append(parts, fmt.Sprintf("%d*%s", m[n], n))
+			}
+		}
+		k.key = strings.Join(parts, " ")
+		if k.key == "" {
+			k.ok = false
+		}
+	}
+	affKeys[ck] = k
+	return k
+}
+
+func (s *astate) siblingRange(src string, w int, signed bool) (srange, bool) {
+	if w <= 0 {
+		return srange{}, false
+	}
+	me := affineKeyOf(src, w)
+	if !me.ok {
+		return srange{}, false
+	}
+	try := func(other string, lo, hi int64) (srange, bool) {
+		if other == src || srcWidths[other] != w {
+			return srange{}, false
+		}
+		o := affineKeyOf(other, w)
+		if !o.ok || o.key != me.key {
+			return srange{}, false
+		}
+		// src = other - (o.c - me.c); an end at the limit of int64 stands for "unbounded" and stays so
+		// (intervals saturate there: a quantity of 2^63 is not told apart from an unbounded one)
+		k := o.c - me.c
+		lo2, hi2 := satAddR(lo, -k), satAddR(hi, -k)
+		flo, fhi := lo2, hi2
+		if flo == math.MinInt64 {
+			flo = fhi
+		}
+		if fhi == math.MaxInt64 {
+			fhi = flo
+		}
+		if (lo2 != math.MinInt64 || hi2 != math.MaxInt64) && fitsWidth(flo, fhi, w, signed) {
+			return srange{lo2, hi2}, true
+		}
+		return srange{}, false
+	}
+	out, found := srange{math.MinInt64, math.MaxInt64}, false
+	meet := func(r srange) {
+		found = true
+		if r.lo > out.lo {
+			out.lo = r.lo
+		}
+		if r.hi < out.hi {
+			out.hi = r.hi
+		}
+	}
+	for other, f := range s.sfacts {
+		if r, ok := try(other, f[0], f[1]); ok {
+			meet(r)
+		}
+	}
+	for other, f := range s.facts {
+		if _, both := s.sfacts[other]; both {
+			continue
+		}
+		hi := int64(math.MaxInt64)
+		if f[1] <= math.MaxInt64 {
+			hi = int64(f[1])
+		}
+		if f[0] > math.MaxInt64 {
+			continue
+		}
+		if r, ok := try(other, int64(f[0]), hi); ok {
+			meet(r)
+		}
+	}
+	return out, found && out.lo <= out.hi
+}
+
+// FactOf answers "what does a path know about the named w-bit source": its own signed or
+// unsigned fact, or the fact of a source that differs from it by a constant (the affine normal
+// form makes x+1 and x two names for one unknown), shifted — when the shifted interval is
+// representable. Rules use it instead of indexing AOutcome.Facts with a derived name.
+func FactOf(sfacts map[string][2]int64, facts map[string][2]uint64, name string, w int) ([2]int64, bool) {
+	out, found := [2]int64{math.MinInt64, math.MaxInt64}, false
+	if f, ok := sfacts[name]; ok {
+		out, found = f, true
+	} else if f, ok := facts[name]; ok && f[1] <= math.MaxInt64 {
+		out, found = [2]int64{int64(f[0]), int64(f[1])}, true
+	}
+	st := &astate{facts: facts, sfacts: sfacts}
+	if r, ok := st.siblingRange(name, w, true); ok {
+		found = true
+		if r.lo > out[0] {
+			out[0] = r.lo
+		}
+		if r.hi < out[1] {
+			out[1] = r.hi
+		}
+	}
+	return out, found
+}
+
+// srcBitsNoReg: the bits of a named w-bit source, without touching the width registry.
+func srcBitsNoReg(name string, w int) BitVec {
+	out := make(BitVec, w)
+	for i := range out {
+		out[i] = Bit{Kind: BSrc, Src: name, Idx: i}
+	}
+	return out
 }
